@@ -255,3 +255,27 @@ pub fn hunt_hzero(n: usize, first: u64, count: u64) {
         }
     });
 }
+
+/// `fvh hunt-lastbyte <n> <first> <count>`: seeds whose public or secret key encoding ends (or whose
+/// body starts) with a byte that text-oriented transports treat specially.
+pub fn hunt_lastbyte(n: usize, first: u64, count: u64) {
+    let special = [0x0au8, 0x0d, 0x00, 0x20, 0x09, 0xff, 0x1a, 0x3d, 0x2e, 0x5c];
+    let next = std::sync::atomic::AtomicU64::new(0);
+    std::thread::scope(|sc| {
+        for _ in 0..16 {
+            sc.spawn(|| loop {
+                let i = next.fetch_add(1, std::sync::atomic::Ordering::Relaxed);
+                if i >= count {
+                    break;
+                }
+                let seed = crate::util::seed32(0x1A57_0000_0000 + first + i);
+                let (sk, pk) = api::keygen(n, seed);
+                let (pkb, skb) = (pk.to_bytes(), sk.to_bytes());
+                let (pl, sl) = (*pkb.last().unwrap(), *skb.last().unwrap());
+                if special.contains(&pl) || special.contains(&sl) || (pkb[pkb.len() - 2] == 0x0d && pl == 0x0a) {
+                    println!("{} {} pk_last={:02x} sk_last={:02x}", n, hex(&seed), pl, sl);
+                }
+            });
+        }
+    });
+}
